@@ -517,6 +517,8 @@ def itermergesort(sources, key, header, missing, reverse):
                 # handle short rows
                 outrow = [missing] * len(ofs)
                 for i, fi in enumerate(flds):
+                    if fi not in ofs:
+                        continue  # field is not in the output header
                     try:
                         outrow[ofs.index(fi)] = _row[i]
                     except IndexError:
